@@ -203,19 +203,45 @@ def run(tier, seed):
             pend = b""
         if pend:
             docg.append(pend)
+        # comments of the merged groups; a comment-only line (e.g. `// UpdateMask`) is a marker for the group that follows it
+        docc_all = [com for g, com in body_groups if not (com.endswith("length") or com.endswith(".length"))]
+        docc, marker = [], ""
+        for g, com in zip(docg, docc_all + [""] * (len(docg) - len(docc_all))):
+            if not g:
+                marker = (marker + " " + com).strip()
+                continue
+            docc.append((marker + " " + com).strip())
+            marker = ""
         docg = [g for g in docg if g]
         mg = [g for g in model if g]
+        BUILTIN = ("UpdateMask", "AuraMask", "EnchantMask", "CacheMask", "InspectTalentGearMask", "MonsterMoveSpline", "AchievementDoneArray", "AchievementInProgressArray", "AddonArray", "NamedGuid", "VariableItemRandomProperty")
         j = 0
         okg = True
         bad_at = None
-        for gi, g in enumerate(docg):
+        gi = 0
+        while gi < len(docg):
+            g = docg[gi]
+            j0 = j
             acc = b""
             while j < len(mg) and len(acc) < len(g):
                 acc += mg[j]
                 j += 1
-            if acc != g:
-                okg, bad_at = False, gi
-                break
+            if acc == g:
+                gi += 1
+                continue
+            # a built-in type is ONE field of the definition; the annotator shows its parts (block count, mask blocks, values, ...) as
+            # groups of their own: from a group whose comment names a built-in type on, consecutive groups may add up to that one field
+            if j0 < len(mg) and any(b_ in docc[gi] for b_ in BUILTIN):
+                f_ = mg[j0]
+                acc2, g2 = b"", gi
+                while g2 < len(docg) and len(acc2) < len(f_):
+                    acc2 += docg[g2]
+                    g2 += 1
+                if acc2 == f_:
+                    gi, j = g2, j0 + 1
+                    continue
+            okg, bad_at = False, gi
+            break
         if okg and j == len(mg):
             n_groups_model_ok += 1
         else:
